@@ -20,7 +20,8 @@ PROBES = {
             "return_data", "clock_backwards_seen", "initial_window", "gapped_fh",
             "no_leak_checked", "honest_recomputation_checked", "prefitted_forecaster",
             "missing_values_in_training_window", "fit_params_checked",
-            "x_consuming_forecaster", "missing_values_in_test_window", "raw_metric_checked"],
+            "x_consuming_forecaster", "missing_values_in_test_window", "raw_metric_checked",
+            "exogenous_windows_checked"],
     "C08": ["tie_in_best_score", "greater_is_better", "nested_param_names", "multiplexer_grid",
             "randomized_search", "refit_false", "interleave_schedule", "pre_dispatch_window",
             "lockstep_history_checked", "sibling_schedule_checked", "list_of_grids",
@@ -28,11 +29,12 @@ PROBES = {
             "fit_horizon_remembered", "prediction_intervals_checked", "undefined_candidate_score",
             "update_predict_single_checked", "update_predict_default_splitter",
             "all_scores_undefined", "step_refused_by_both", "raw_metric_checked",
-            "refit_switched_off_and_fitted_again"],
+            "refit_switched_off_and_fitted_again", "refit_failed_on_second_fit", "rescaled_series"],
 }
 FAULT_KINDS = {
     "C07": ["clock_jump_fwd", "clock_jump_back"],
-    "C08": ["schedule_ooo", "schedule_interleave", "clock_jump_fwd", "clock_jump_back"],
+    "C08": ["schedule_ooo", "schedule_interleave", "clock_jump_fwd", "clock_jump_back",
+            "peer_raises_in_refit"],
 }
 RULE = {
     "C07": ("seeded (forecaster x splitter x series x strategy x metric x X x return_data) with a "
@@ -265,6 +267,11 @@ def generate(prop, rng, tier):
         "refit": rng.random() < 0.8,
         "second_fit": rng.random() < 0.3,
         "toggle_refit": rng.random() < 0.3,
+        # magnitude of the series (scale-dependent metrics on small numbers make absolute
+        # tolerances bite)
+        "scale": rng.choice([1.0, 1.0, 1.0, 1e-5, 1e-3, 1e4]),
+        # a later fit of the same tuner whose final refit on the whole series fails
+        "refit_fails": base_kind == "naive" and rng.random() < 0.3,
         # horizon given to fit (None, or one that differs from the splitter's)
         "fit_fh": rng.choice([None, None, [1, 2, 5], [2, 3, 4, 6]]),
         "alpha": rng.choice([0.05, 0.2, 0.5]),
@@ -417,6 +424,26 @@ def execute_c07(scen):
                   i, c_fit["m"], info.get("first"), info.get("last"), info.get("n"),
                   exp_info["first"], exp_info["last"], exp_info["n"]), fold="first" if i == 0 else "later")
             return res
+        # exogenous data: the rows of the training window at fit AND at every update; the rows
+        # from the cutoff to the last test point at predict
+        if X is not None:
+            res.probe("exogenous_windows_checked")
+            exp_x = peers._series_info(X.iloc[tr])
+            if c_fit.get("X") != exp_x:
+                v("wrong_exogenous_window", "fold %d: %s received X %s, the split's training rows are "
+                  "X[%s..%s] (n=%d)" % (i, c_fit["m"], c_fit.get("X") and (c_fit["X"].get("first"),
+                                                                           c_fit["X"].get("last"),
+                                                                           c_fit["X"].get("n")),
+                                        exp_x["first"], exp_x["last"], exp_x["n"]), call=c_fit["m"])
+                return res
+            exp_xt = peers._series_info(X.iloc[tr[-1] + 1: te[-1] + 1])
+            if c_pred.get("X") != exp_xt:
+                v("wrong_exogenous_window", "fold %d: predict received X %s, the rows from the cutoff "
+                  "to the last test point are X[%s..%s] (n=%d)" % (
+                      i, c_pred.get("X") and (c_pred["X"].get("first"), c_pred["X"].get("last"),
+                                              c_pred["X"].get("n")),
+                      exp_xt["first"], exp_xt["last"], exp_xt["n"]), call="predict")
+                return res
         # the caller's fit parameters reach every fit, not only the first
         if scen.get("fit_params") and c_fit["m"] == "fit":
             res.probe("fit_params_checked")
@@ -530,6 +557,10 @@ def _make_tuner(scen, n_jobs, pre_dispatch="same"):
     from sktime.forecasting.model_selection import (
         ForecastingGridSearchCV, ForecastingRandomizedSearchCV)
     base = C.build(scen["base"])
+    if scen.get("refit_fails") and scen["base"]["kind"] == "naive":
+        # same forecaster, with a data-triggered fault for a later fit (see execute_c08)
+        base = peers.FailingNaive(strategy=base.strategy, window_length=base.window_length, sp=base.sp,
+                                  fail_len=scen["n"] + 3)
     cv = C.build_cv(scen["cv"])
     metric = build_metric(scen["metric"])
     pd_ = scen["pre_dispatch"] if pre_dispatch == "same" else pre_dispatch
@@ -589,6 +620,9 @@ def execute_c08(scen):
     s = scen["series"]
     tail_len = scen["tail"] + 19 * scen["history"].count("update_predict_nocv")
     y_all = C.make_series(s["seed"], scen["n"] + tail_len + 4, s["origin"], s["index"], sp=s["sp"])
+    if scen.get("scale", 1.0) != 1.0:
+        y_all = y_all * scen["scale"]
+        res.probe("rescaled_series")
     y = y_all.iloc[:scen["n"]]
     digest = hashlib.sha256()
     res.real.update(C.class_names(scen["base"]))
@@ -936,6 +970,45 @@ def execute_c08(scen):
                 op, k, tuner.cutoff, direct.cutoff), op=op)
             break
         digest.update(repr((op, C.digest_obj(a))).encode())
+    # ---- the same tuner fitted again on a longer series, where the search succeeds but the
+    # final refit raises: nothing of the earlier fit may go on answering
+    if scen.get("refit_fails") and scen["base"]["kind"] == "naive" and not res.violations \
+            and scen["n"] + 3 <= len(y_all):
+        y2 = y_all.iloc[:scen["n"] + 3]
+        failed = False
+        try:
+            with sched.scenario_schedule(sched.Scheduler(scen["sched"]["mode"], scen["sched"]["seed"] + 5,
+                                                         scen["sched"]["p"])), \
+                    patched_evaluate_clock(SimClock(6)):
+                tuner.fit(y2)
+        except peers.InjectedFault:
+            failed = True
+        except Exception as e:  # noqa
+            v("fit_raised", "second fit raised %s instead of the injected fault" % type(e).__name__,
+              exc=type(e).__name__)
+        if failed:
+            res.probe("refit_failed_on_second_fit")
+            res.fault("peer_raises_in_refit")
+            for name, call in (("predict", lambda: tuner.predict([1, 2])),
+                               ("update", lambda: tuner.update(y_all.iloc[scen["n"] + 3:scen["n"] + 5])),
+                               ("cutoff", lambda: tuner.cutoff)):
+                try:
+                    out_ = call()
+                except NotFittedError:
+                    continue
+                except Exception as e:  # noqa
+                    v("no_refit_wrong_error", "%s after a fit whose refit failed raised %s instead "
+                      "of NotFittedError" % (name, type(e).__name__), method=name,
+                      exc=type(e).__name__, after_failed_fit=True)
+                    break
+                if name == "cutoff" and out_ is None:
+                    continue
+                v("stale_forecaster_answers", "%s answered (%s) after a fit whose final refit failed: "
+                  "the forecaster of the earlier fit is still in place" % (name, str(out_)[:60]),
+                  method=name)
+                break
+            res.digest = digest.hexdigest()[:16]
+            return res
     # ---- the same tuner switched to refit=False and fitted again: the forecaster of the
     # earlier fit must not answer any more
     if scen.get("toggle_refit") and not res.violations:
